@@ -262,6 +262,17 @@ pub fn run(dir: &str) {
                         "queued".to_string()
                     }
                 },
+                // a replicated entry with the index the leader gave it (after a snapshot installation the follower's log
+                // continues at the snapshot's index + 1, whatever the follower held before)
+                ["QI", idx, kind, a, b, seq] => match mkreq(kind, a.parse().unwrap_or(0), b.parse().unwrap_or(0), seq.parse().unwrap_or(0)) {
+                    Err(e) => format!("badreq {}", e),
+                    Ok(req) => {
+                        let i: u64 = idx.parse().unwrap_or(0);
+                        queue.push((i, req));
+                        next = i + 1;
+                        "queued".to_string()
+                    }
+                },
                 ["F", sizes] => {
                     let mut res = "ok".to_string();
                     let mut it = queue.drain(..).collect::<Vec<_>>().into_iter().peekable();
@@ -306,6 +317,41 @@ pub fn run(dir: &str) {
                             if ok { "ok".to_string() } else { "err".to_string() }
                         }
                         _ => "err".to_string(),
+                    }
+                }
+                // leader side of a snapshot transfer: where is the current snapshot and what does it cover
+                ["snapfile"] => match store.get_current_snapshot().await {
+                    Ok(Some(cur)) => match snapshot_manager.send(RaftSnapshotRequest::GetLastSnapshot).await {
+                        Ok(Ok(RaftSnapshotResponse::LastSnapshot(Some(path), _))) => format!("snapfile {} {} {}", path, cur.index, cur.term),
+                        _ => "err".to_string(),
+                    },
+                    _ => "none".to_string(),
+                },
+                // follower side, as async-raft drives it: create_snapshot, receive the bytes, finalize_snapshot_installation
+                ["install", path, index, term] => {
+                    use tokio::io::AsyncWriteExt;
+                    match store.create_snapshot().await {
+                        Ok((id, mut file)) => {
+                            let bytes = std::fs::read(path).unwrap_or_default();
+                            if file.write_all(&bytes).await.is_err() || file.flush().await.is_err() {
+                                "err write".to_string()
+                            } else {
+                                // async-raft: delete_through = Some(snapshot index) iff the follower's log is longer
+                                let sidx: u64 = index.parse().unwrap_or(0);
+                                let through = match store.get_last_log_index().await {
+                                    Ok(l) if l.index > sidx => Some(sidx),
+                                    _ => None,
+                                };
+                                match store.finalize_snapshot_installation(sidx, term.parse().unwrap_or(0), through, id, file).await {
+                                    Ok(_) => {
+                                        next = index.parse::<u64>().unwrap_or(0) + 1;
+                                        "ok".to_string()
+                                    }
+                                    Err(_) => "err finalize".to_string(),
+                                }
+                            }
+                        }
+                        Err(_) => "err create".to_string(),
                     }
                 }
                 ["dump"] => {
